@@ -326,6 +326,21 @@ def c08_multiphase(case):
     pydrex.update_all(ms2, params, np.eye(3), lambda t, x: GENERAL_L, (0.0, 0.3, lambda t: np.zeros(3)))
     if not (np.array_equal(ms1[0].fractions[-1], ms2[1].fractions[-1]) and np.array_equal(ms1[1].orientations[-1], ms2[0].orientations[-1])):
         problems.append("reordering the minerals handed to update_all changes the result")
+    # every accepted regime, including the one whose rates depend on the deformation gradient handed in: a mineral
+    # inside a bulk update evolves exactly as it does alone, wherever it stands in the list
+    for rg in ("matrix_diffusion", "frictional_yielding", "max_viscosity"):
+        mk = lambda: [_mineral("olivine", "olivine_A", rg, 10, seed=4), _mineral("enstatite", "enstatite_AB", rg, 10, seed=5)]  # noqa: E731
+        a, b = mk(), mk()[::-1]
+        alone = mk()
+        for grp in (a, b):
+            pydrex.update_all(grp, params, np.eye(3), lambda t, x: GENERAL_L, (0.0, 0.3, lambda t: np.zeros(3)))
+        for m in alone:
+            m.update_orientations(params, np.eye(3), lambda t, x: GENERAL_L, (0.0, 0.3, lambda t: np.zeros(3)))
+        for k in range(2):
+            same = (np.array_equal(a[k].orientations[-1], b[1 - k].orientations[-1]) and np.array_equal(a[k].fractions[-1], b[1 - k].fractions[-1])
+                    and np.array_equal(a[k].orientations[-1], alone[k].orientations[-1]) and np.array_equal(a[k].fractions[-1], alone[k].fractions[-1]))
+            if not same:
+                problems.append(f"{rg}: a mineral's texture after update_all depends on its position in the list / differs from the lone update")
     return {"reproduced": bool(problems), "detail": problems[:5] or "each phase evolves with its own volume factor"}
 
 
@@ -469,6 +484,17 @@ def c14_triclinic(case):
     m3 = pydrex.misorientation_index(single, sysm)
     if m3 < 0.9:
         problems.append(f"single-orientation texture has M = {m3:.3f}")
+    # pairs exactly at the maximum misorientation (mutual 180-degree twins): every pair must be counted
+    tw = Rotation.from_rotvec([[0, 0, 0], [np.pi, 0, 0], [0, np.pi, 0], [0, 0, np.pi]]).as_matrix()
+    for k in (2, 3, 4):
+        mt = pydrex.misorientation_index(tw[:k], sysm)
+        cnt, edges = stats.misorientation_hist(tw[:k], sysm)
+        if not np.isfinite(mt) or not 0 <= mt <= 1 + 1e-3 or not np.isclose(np.sum(cnt * np.diff(edges)), 1.0):
+            problems.append(f"{k} mutual twins (all pairs at 180 degrees): M = {mt}, histogram mass {np.sum(cnt * np.diff(edges))}")
+    mixed = np.concatenate([np.repeat(tw[:1], 5, axis=0), np.repeat(tw[1:2], 5, axis=0)])
+    cnt, edges = stats.misorientation_hist(mixed, sysm)
+    if not np.isclose(cnt[-1] * (edges[-1] - edges[-2]), 25 / 45, atol=1e-9):
+        problems.append(f"bimodal twin texture: the last bin holds {cnt[-1] * (edges[-1] - edges[-2]):.4f} of the pairs instead of 25/45")
     return {"reproduced": bool(problems), "detail": problems[:5] or "triclinic index invariant on the replay inputs"}
 
 
@@ -525,6 +551,18 @@ def c15_resample(case):
         b = stats.resample_orientations(A, f, n_samples=50, seed=sd)
         if not (np.array_equal(a[0], b[0]) and np.array_equal(a[1], b[1])):
             problems.append(f"seed {sd}: two calls with the same seed give different samples")
+    # real generator, every relation of n_samples to the grain count (fewer, equal, more): the dominant grain must be
+    # drawn with a frequency equal to its volume (fixed seeds, so the outcome is deterministic)
+    f1 = np.array([[0.6, 0.2, 0.1, 0.1]])
+    A1 = np.arange(4 * 9, dtype=float).reshape(1, 4, 3, 3)
+    for ns in (1, 2, 3, 4, 9):
+        hits = tot = 0
+        for sd in range(1500):
+            _, of = stats.resample_orientations(A1, f1, n_samples=ns, seed=sd)
+            hits += int(np.sum(of == 0.6))
+            tot += of.size
+        if abs(hits / tot - 0.6) > 0.04:
+            problems.append(f"n_samples = {ns} of 4 grains: the grain holding 0.6 of the volume is drawn with frequency {hits / tot:.3f}")
     return {"reproduced": bool(problems), "detail": sorted(set(problems))[:5] or "draws follow the cumulative volume intervals"}
 
 
